@@ -923,7 +923,9 @@ static void scn_migrate(void)
         ABT_thread_attr attr;
         CHK(ABT_thread_attr_create(&attr));
         CHK(ABT_thread_attr_set_stacksize(attr, 65536));
-        if (!m->migratable)
+        /* some are created non-migratable (with their callback) and made migratable afterwards */
+        int late_mig = m->migratable && rnd(3) == 0;
+        if (!m->migratable || late_mig)
             CHK(ABT_thread_attr_set_migratable(attr, ABT_FALSE));
         if (m->cbmode == 0)
             CHK(ABT_thread_attr_set_callback(attr, mig_cb, m));
@@ -935,6 +937,8 @@ static void scn_migrate(void)
          * before any concurrent request (see known finding S2) */
         if (m->cbmode == 1)
             CHK(ABT_thread_set_callback(m->th, mig_cb, m));
+        if (late_mig)
+            CHK(ABT_thread_set_migratable(m->th, ABT_TRUE));
         m->cb_ready = 1;
         EV("\"e\":\"CreateRet\",\"by\":0,\"u\":%d", i);
     }
